@@ -24,7 +24,7 @@ pub fn main(args: &Args) {
     rep.absorb(t);
     rep.set("programs", json!(spec.programs.len()));
     rep.rule = format!(
-        "{} element-level receivers (5 traits x attribute-name sets [a], [a,b], [a,b,c::d] x forward_attrs absent / bare / (doc, allow) / ()) with fields u32, Option, multiple, nested. For every item sequence of length 0..{} over a 9-symbol alphabet (valid and invalid items): the single-attribute spelling is the reference run; then every partition into consecutive attributes x every assignment of declared attribute names, and every insertion of one of 11 unrelated attributes (doc, cfg, derive, arbitrary token bodies, bare and empty declared names, `::a`, `a::a`) at every position (two in the thorough tier): value or error list (messages, paths, count) must be identical, and the `attrs` member must hold exactly the attributes a reference filter selects, token-identical and in source order. states = item sequences; transitions = derived spellings executed; non-trivial = sequences whose reference run is an error.",
+        "{} element-level receivers (5 traits x attribute-name sets [a], [a,b], [a,c::d,e::f] x forward_attrs absent / bare / (doc, allow) / () / with multi-segment names; flatten-only, member-less and forwarding-only receivers; forward lists overlapping the claimed names) with fields u32, Option, multiple, nested. Also: every baseline with its values in one and two invisible groups, in inner style for FromAttributes, and 5..33 occurrences of the multiple member spread one or two per attribute under every rotation of the names. For every item sequence of length 0..{} over a 9-symbol alphabet (valid and invalid items): the single-attribute spelling is the reference run; then every partition into consecutive attributes x every assignment of declared attribute names, and every insertion of one of 11 unrelated attributes (doc, cfg, derive, arbitrary token bodies, bare and empty declared names, `::a`, `a::a`) at every position (two in the thorough tier): value or error list (messages, paths, count) must be identical, and the `attrs` member must hold exactly the attributes a reference filter selects, token-identical and in source order. states = item sequences; transitions = derived spellings executed; non-trivial = sequences whose reference run is an error.",
         spec.programs.len(),
         args.tier.pick(3, 4)
     );
